@@ -25,6 +25,7 @@ package gff
 //@   property C03 C04
 //@   requires r != nil && r.r != nil
 //@   ensures [value-or-error] f != nil || err != nil
+//@   ensures [clean-record]   f != nil ==> err == nil
 //@   ensures [no-data-loss]   lastErr(r.r) == io.EOF && lastLen(r.r) > 0 ==> splitCount(0) > old(splitCount(0))
 //@   ensures [monotone]       splitCount(0) >= old(splitCount(0))
 //@   loop 1 invariant r != nil && r.r != nil && splitCount(0) == old(splitCount(0))
@@ -34,6 +35,7 @@ package gff
 //@   throws
 //@   requires r != nil && r.r != nil
 //@   ensures [value-or-error] f != nil || err != nil
+//@   ensures [clean-record] f != nil ==> err == nil
 //@   ensures [parsed] splitCount(0) > old(splitCount(0))
 //@   exsures [parsed-on-error] splitCount(0) > old(splitCount(0))
 
@@ -42,6 +44,7 @@ package gff
 //@   requires r != nil && r.r != nil
 //@   ensures [value-or-error] result0 != nil || result1 != nil
 //@   ensures [no-data-loss]   lastErr(r.r) == io.EOF && lastLen(r.r) > 0 ==> result0 != nil || (result1 != nil && result1 != io.EOF)
+//@   ensures [clean-record]   result0 != nil ==> result1 == nil
 //@   ensures [monotone]       splitCount(0) >= old(splitCount(0))
 //@   loop 1 invariant splitCount(0) >= old(splitCount(0))
 //@   loop 1 invariant r != nil && r.r != nil
